@@ -116,23 +116,22 @@ def run(chk, ctx) -> None:
                'outside the update steps nothing reachable from the operation looks at the automation tuple', got=direct)
     chk.floor('C09.blind_operations', 17)
     # ------------------------------------- default choices are state-determined
-    # lowest pending index: every `if player_index is None` default is next()/index() over the pending structure
+    # lowest pending index: every optional player index is defaulted under `is None` from the pending structure
     for op, (v, q) in disc.items():
         vf = ms[v]
+        if 'player_index' not in vf.params:
+            continue
+        ok = False
+        got = 'no `if player_index is None:` default found'
+        site = vf.node
         for node in walk_no_nested(vf.node):
             if isinstance(node, ast.If) and T.cond(node.test) == T.spec('player_index is None', boolean=True):
-                assigns = [s for s in node.body if isinstance(s, ast.Assign)]
-                ok = False
-                got = ''
-                for a in assigns:
+                site = node
+                for a in [s2 for s2 in ast.walk(node) if isinstance(s2, ast.Assign) and isinstance(s2.targets[0], ast.Name) and s2.targets[0].id == 'player_index']:
                     t = T.norm(a.value)
                     got = T.show(t)
-                    # next(self.<indices property>) or self.<index property>
-                    if t[0] == 'call' and t[1] == 'next' and t[2] and t[2][0][0] == 'self':
+                    if (t[0] == 'call' and t[1] == 'next' and t[2] and t[2][0][0] == 'self') or t[0] == 'self':
                         ok = True
-                    if t[0] == 'self':
-                        ok = True
-                if assigns:
-                    chk.ob('C09.default_choice', f'State.{v}', ok, ctx.loc(vf, node),
-                           'the default player is the first pending one, read from the state (not from the caller or the automation)', got=got)
+        chk.ob('C09.default_choice', f'State.{v}', ok, ctx.loc(vf, site),
+               'the default player is the first pending one, read from the state under an `is None` test (not from the caller or the automation)', got=got)
     chk.floor('C09.default_choice', 7)
